@@ -20,15 +20,25 @@ Definition kf10_universe : list usec := [USec "build/src/a.o" None ".text" 16 4 
 (* the document is accepted and generates, the class "ovl" is used by an emitted segment, and the link stops:
    the start of "ovl" reads base_VRAM_CLASS_END, which nothing defines *)
 Theorem C10_refuted_follows_unemitted :
-  exists d rt w u,
+  exists d rt w u c,
     gen_normal d rt = Ok w /\
+    (* the class "ovl" is declared to follow "base", is used by an emitted segment, and "base" is used by none *)
+    In c (doc_vram_classes d) /\ vc_name c = "ovl" /\ vc_follows_classes c = ["base"] /\
     In "ovl" (used_classes rt (doc_segments d)) /\
+    ~ In "base" (used_classes rt (doc_segments d)) /\
+    (* the end symbol of the followed class, which the start of "ovl" reads, is defined nowhere: the link stops *)
+    vram_class_end (linker_symbols_style (doc_settings d)) "base" = "base_VRAM_CLASS_END" /\
     In (LUndefined "base_VRAM_CLASS_END") (l_errors (layout (wo_script w) u [])).
 Proof.
   exists kf10_doc, ex_rt.
   destruct (gen_normal kf10_doc ex_rt) as [w|e] eqn:G; [|vm_compute in G; discriminate].
-  exists w, kf10_universe.
-  split; [reflexivity|]. split; [vm_compute; left; reflexivity|].
+  exists w, kf10_universe, (VramClass "ovl" None None ["base"] KAbsent).
+  split; [reflexivity|].
+  split; [right; left; reflexivity|].
+  split; [reflexivity|]. split; [reflexivity|].
+  split; [vm_compute; left; reflexivity|].
+  split; [vm_compute; intros [H|[]]; discriminate H|].
+  split; [reflexivity|].
   vm_compute in G. injection G as <-. vm_compute. left. reflexivity.
 Qed.
 
